@@ -91,6 +91,23 @@ def mutations(gc, P, comp_bytes, unc_bytes, rng, pool):
     t = bytearray(nf); t[0] = F_COMP | F_INF; t[-1] = 1; out.append(('inf-with-low-bit', True, bytes(t)))
     t = bytearray(2 * nf); t[0] = F_INF; t[nf] = 1; out.append(('inf-with-y-payload', False, bytes(t)))
     t = bytearray(2 * nf); t[0] = F_INF; t[-1] = 1; out.append(('inf-with-y-payload', False, bytes(t)))
+    # identity flag followed by padding that PARSES to zero without being zero: a later 48-byte field holding exactly q (reduces to 0), q with
+    # control bits, or control bits alone (masked off by the coordinate parser); also the first field holding q below the flag bits
+    qb = Q.to_bytes(48, 'big')
+    for comp in (True, False):
+        n = nf if comp else 2 * nf
+        flags = (F_COMP if comp else 0) | F_INF
+        for fi in range(n // 48):
+            variants = [qb, bytes([qb[0] | 0x80]) + qb[1:], bytes([qb[0] | 0xe0]) + qb[1:]] + [bytes([b]) + bytes(47) for b in (0x80, 0x40, 0x20, 0xe0)]
+            for v in variants:
+                t = bytearray(n); t[0] = flags
+                if fi == 0:
+                    if v[0] & 0xe0 or not any(v[1:]):
+                        continue             # the first field's top bits ARE the flags
+                    t[0:48] = v; t[0] |= flags
+                else:
+                    t[48 * fi:48 * fi + 48] = v
+                out.append(('inf-with-padding-that-parses-to-zero', comp, bytes(t)))
     # identity flag followed by padding that is not zero but NEUTRAL for a word-wise accumulator: two lanes that cancel under +
     # (v and 2^w - v), two equal lanes (cancel under xor), all lanes all-ones plus a correcting lane - for lane widths 8, 4 and 2 bytes,
     # either endianness, lanes chosen anywhere in the string (also lane 0, which holds the flags)
